@@ -517,6 +517,7 @@ C18_SRC = (
 from jaxtyping import Float
 {imports}
 VERSION = "v{ver:03d}"
+_DEEP = ''' + "+".join(["1"] * 200) + '''
 '''
     + FUNC_SRC
     + "{extra}"
@@ -752,6 +753,21 @@ class CacheWorld:
             raise common.HarnessError("warm-up wrote bytecode")
 
 
+C18_DEEP_MARGIN = 150
+
+
+def _with_little_stack(fn, margin):
+    depth, f = 0, sys._getframe()
+    while f is not None:
+        depth, f = depth + 1, f.f_back
+    old = sys.getrecursionlimit()
+    sys.setrecursionlimit(depth + margin)
+    try:
+        return fn()
+    finally:
+        sys.setrecursionlimit(old)
+
+
 def c18_do_run(hooked, ck, order, modules, cheap_probe=False, write=True, disabled=False):
     """Install the hook (unless ck == 'nohook'), import in order, call mc.load(),
     uninstall; bytecode writing is ON exactly for that span (write=False is the
@@ -760,6 +776,8 @@ def c18_do_run(hooked, ck, order, modules, cheap_probe=False, write=True, disabl
     import jaxtyping
     from .fixtures import spyck
 
+    mode = "disabled" if disabled is True else (disabled or None)
+    disabled = mode == "disabled"
     outcome = "ok"
     mgr = None
     spyck.PATH.setdefault("C", C18_TC + ".tc")
@@ -782,11 +800,26 @@ def c18_do_run(hooked, ck, order, modules, cheap_probe=False, write=True, disabl
                 outcome = "raised:BrokenModuleImported:"
             except SyntaxError:
                 pass
-        try:
+            if mode == "extra-hook":
+                # a second hook (for a package that is never imported) is installed as well and
+                # uninstalled TWICE (explicitly, and again by leaving its with-block) before the imports
+                m2 = jaxtyping.install_import_hook(["zz_c18_elsewhere"], spyck.PATH["B"])
+                m2.uninstall()
+                m2.uninstall()
+
+        def imports():
             for m in order:
                 importlib.import_module(m)
             if "mc" in sys.modules:
                 sys.modules["mc"].load()
+
+        try:
+            if mode == "deep":
+                # the run imports from deep inside the application's call stack: little stack is
+                # left, and the hook's recursive source transformation of a (deep) module overflows
+                _with_little_stack(imports, C18_DEEP_MARGIN)
+            else:
+                imports()
         finally:
             if mgr is not None:
                 mgr.uninstall()
@@ -814,7 +847,7 @@ def c18_subprocess_run(root, hooked, ck, order, modules, timeout=120, disabled=F
     env = dict(os.environ)
     env.pop("PYTHONDONTWRITEBYTECODE", None)
     env["VERIF_REPO"] = common.REPO
-    spec = json.dumps(dict(root=root, hooked=list(hooked), ck=ck, order=list(order), modules=list(modules), disabled=bool(disabled)))
+    spec = json.dumps(dict(root=root, hooked=list(hooked), ck=ck, order=list(order), modules=list(modules), disabled=disabled or False))
     # -B only keeps THIS interpreter's own start-up imports (vf, jaxtyping, numpy)
     # from writing bytecode next to their sources; the run itself switches
     # writing on (sys.dont_write_bytecode = False) around the forest imports.
